@@ -43,7 +43,7 @@ func c13Values() []c13Val {
 	return append(named, []c13Val{
 		{"nil", nil}, {"int0", 0}, {"int-1", -1}, {"int7", 7}, {"maxint64", int64(math.MaxInt64)}, {"minint64", int64(math.MinInt64)}, {"int8", int8(-128)},
 		{"uint0", uint(0)}, {"maxuint64", uint64(math.MaxUint64)}, {"f0", 0.0}, {"f0.5", 0.5}, {"f-2.5", -2.5}, {"f3", 3.0}, {"NaN", math.NaN()}, {"+Inf", math.Inf(1)}, {"-Inf", math.Inf(-1)},
-		{"huge", 1e308}, {"tiny", 5e-324}, {"f1e18", 1e18}, {"f32", float32(1.5)}, {"str-empty", ""}, {"str-abc", "abc"}, {"str-12", "12"}, {"str-1e5", "1e5"}, {"str--0.5", "-0.5"}, {"str-5", "5"}, {"pstr-empty", &es},
+		{"huge", 1e308}, {"tiny", 5e-324}, {"f1e18", 1e18}, {"f32", float32(1.5)}, {"str-empty", ""}, {"str-abc", "abc"}, {"str-12", "12"}, {"str-beyond-int64", "99999999999999999999"}, {"bytes-beyond-int64", []byte("-99999999999999999999")}, {"str-1e5", "1e5"}, {"str--0.5", "-0.5"}, {"str-5", "5"}, {"pstr-empty", &es},
 		{"bytes", []byte("b<\"")}, {"pbytes", &bs}, {"true", true}, {"false", false}, {"time", time.Unix(1600000000, 5)}, {"ptime", func() *time.Time { t := time.Unix(0, 0); return &t }()},
 		{"nilptr", np}, {"strs", []string{"a", "b"}}, {"map", map[string]any{"k": 1}}, {"struct", struct{ A int }{1}}, {"user", (UserSpec{Id: "1", HasFinance: true}).Build()},
 	}...)
